@@ -1,3 +1,3 @@
 From Coq Require Import ExtrOcamlBasic ZArith.
-From RtoscV Require Import Midi.MidiModel.
-Extraction "model.ml" Z.add Z.mul Z.opp dy_of_bits32 mval_bits mval_isint world0 run.
+From RtoscV Require Import Midi.MidiModel Midi.MidiSpec.
+Extraction "model.ml" Z.add Z.mul Z.opp dy_of_bits32 mval_bits mval_isint world0 run nocross pending_of.
